@@ -208,6 +208,8 @@ def init_task(seed):
             cfgs.append(("HouseholderSequence", D, dict(num_transforms=K)))
         for K in (2, 4, 2 * D + 2):
             cfgs += [("SVDLinear", D, dict(num_householder=K, identity_init=True)), ("SVDLinear", D, dict(num_householder=K, identity_init=False))]
+    # wide layers: the determinant leaves the float range long before its logarithm does
+    cfgs += [("NaiveLinear", 128, dict(orthogonal_initialization=False)), ("NaiveLinear", 200, dict(orthogonal_initialization=False)), ("LULinear", 128, dict(identity_init=False))]
     for name, D, kw in cfgs:
         torch.manual_seed(seed)
         n += 1
@@ -222,7 +224,7 @@ def init_task(seed):
             with torch.no_grad():
                 y, lad = m.forward(x)
                 xr, lad2 = m.inverse(y)
-            ok = bool(torch.isfinite(y).all() and torch.isfinite(lad).all() and torch.isfinite(xr).all()) and torch.allclose(xr, x, atol=1e-3)
+            ok = bool(torch.isfinite(y).all() and torch.isfinite(lad).all() and torch.isfinite(xr).all()) and torch.allclose(xr, x, atol=1e-3 * (1 + D / 8)) and torch.allclose(lad + lad2, torch.zeros_like(lad), atol=1e-3 * (1 + D / 8))
             if not ok:
                 fails.append(dict(case, clause="init_not_usable", detail="%s(%d, %s) freshly constructed: forward / inverse give non-finite or inconsistent values" % (name, D, kw)))
         except Exception as e:  # noqa
